@@ -16,7 +16,7 @@ use crate::scenario::{Op, Report, Scenario};
 use crate::simterm::SimTerm;
 
 /// state path of a single-writer bar: after j operations it shows (pos, message version, finished)
-fn path_of(ops: &[Op]) -> Vec<(u64, u64, bool)> {
+fn path_of(ops: &[Op], has_len: bool) -> Vec<(u64, u64, bool)> {
     let mut v = vec![(0u64, 0u64, false)];
     let (mut pos, mut k, mut fin) = (0u64, 0u64, false);
     for op in ops {
@@ -25,7 +25,9 @@ fn path_of(ops: &[Op]) -> Vec<(u64, u64, bool)> {
             "set_message" => k += 1,
             "finish" => {
                 fin = true;
-                pos = 100; // finish() moves the position to the length
+                if has_len {
+                    pos = 100; // finish() moves the position to the length
+                }
             }
             "abandon" => fin = true, // the position stays
             _ => {}
@@ -35,8 +37,9 @@ fn path_of(ops: &[Op]) -> Vec<(u64, u64, bool)> {
     v
 }
 
-fn render_row(tag: &str, st: (u64, u64, bool)) -> String {
-    format!("{tag}:{}:m{}{}", st.0, st.1, if st.2 { "F" } else { "." })
+/// `{pos}/{len}`: a bar without a length shows its position in both places
+fn render_row(tag: &str, st: (u64, u64, bool), has_len: bool) -> String {
+    format!("{tag}:{}/{}:m{}{}", st.0, if has_len { 100 } else { st.0 }, st.1, if st.2 { "F" } else { "." })
 }
 
 struct Frame {
@@ -48,6 +51,8 @@ struct Frame {
     suspended: bool,
     /// per worker bar: 0 = handle alive, 1 = drop of the last handle in progress, 2 = dropped
     dropped: Vec<u64>,
+    /// increments of the shared bar W that had started
+    w_started: u64,
 }
 
 pub fn exec_sched(sc: &Scenario) -> Report {
@@ -71,7 +76,7 @@ pub fn exec_sched(sc: &Scenario) -> Report {
         let poker = sc.c("poker") == 1 && sc.threads.len() >= 3;
         let nworkers = sc.threads.len().saturating_sub(1 + poker as usize).max(1);
         let style = |tag: &str| {
-            ProgressStyle::with_template(&format!("{tag}:{{pos}}:{{msg}}{{spinner}}"))
+            ProgressStyle::with_template(&format!("{tag}:{{pos}}/{{len}}:{{msg}}{{spinner}}"))
                 .unwrap()
                 .tick_strings(&[".", "F"])
         };
@@ -80,21 +85,34 @@ pub fn exec_sched(sc: &Scenario) -> Report {
         s_bar.set_style(style("S"));
         s_bar.set_message("m0");
         let mut bars = vec![];
+        // worker bars whose bit is set in no_len_mask have no length
+        let has_len = |i: usize| (sc.c("no_len_mask") >> i) & 1 == 0;
         for i in 0..nworkers {
-            let pb = mp.add(ProgressBar::with_draw_target(Some(100), ProgressDrawTarget::hidden()));
+            let pb = mp.add(ProgressBar::with_draw_target(if has_len(i) { Some(100) } else { None }, ProgressDrawTarget::hidden()));
             pb.set_style(style(&format!("B{i}")));
             pb.set_message("m0");
             bars.push(pb);
         }
+        // optional bar W without a length that every worker increments through its own clone: it
+        // is rendered by one thread while the others move it
+        let w_bar: Option<ProgressBar> = if sc.c("shared_w") == 1 {
+            let pb = mp.add(ProgressBar::with_draw_target(None, ProgressDrawTarget::hidden()));
+            pb.set_style(style("W"));
+            pb.set_message("m0");
+            Some(pb)
+        } else {
+            None
+        };
+        let w_started = Arc::new(AtomicU64::new(0));
         let started: Arc<Vec<AtomicU64>> = Arc::new((0..nworkers).map(|_| AtomicU64::new(0)).collect());
         let s_removed = Arc::new(AtomicU64::new(0)); // 0 = member, 1 = remove() in progress, 2 = removed
         let suspended = Arc::new(AtomicU64::new(0));
         let dropped: Arc<Vec<AtomicU64>> = Arc::new((0..nworkers).map(|_| AtomicU64::new(0)).collect());
         // position of the late bar T in the logical order (doubled ranks: S = 2, B_i = 2 i + 4)
-        let t_rank = Arc::new(AtomicU64::new(2 * nworkers as u64 + 5));
+        let t_rank = Arc::new(AtomicU64::new(2 * nworkers as u64 + 6));
         let frames: Arc<StdMutex<Vec<Frame>>> = Arc::new(StdMutex::new(vec![]));
         {
-            let (st, fr, sr, su, dr) = (started.clone(), frames.clone(), s_removed.clone(), suspended.clone(), dropped.clone());
+            let (st, fr, sr, su, dr, ws) = (started.clone(), frames.clone(), s_removed.clone(), suspended.clone(), dropped.clone(), w_started.clone());
             term.lock().on_flush = Some(Arc::new(move |flush, rows| {
                 fr.lock().unwrap().push(Frame {
                     flush,
@@ -103,10 +121,11 @@ pub fn exec_sched(sc: &Scenario) -> Report {
                     removed_s: sr.load(Ordering::SeqCst) == 2,
                     suspended: su.load(Ordering::SeqCst) == 1,
                     dropped: dr.iter().map(|a| a.load(Ordering::SeqCst)).collect(),
+                    w_started: ws.load(Ordering::SeqCst),
                 });
             }));
         }
-        let paths: Vec<Vec<(u64, u64, bool)>> = (0..nworkers).map(|i| path_of(&sc.threads[i + 1])).collect();
+        let paths: Vec<Vec<(u64, u64, bool)>> = (0..nworkers).map(|i| path_of(&sc.threads[i + 1], has_len(i))).collect();
         let mut handles = vec![];
         // workers whose bit is set in drop_mask own the only handle of their bar and drop it at
         // the end of their program (never bar 0: it is the reference bar of insert_before/after)
@@ -118,6 +137,7 @@ pub fn exec_sched(sc: &Scenario) -> Report {
             let ops = sc.threads[i + 1].clone();
             let st = started.clone();
             let dr = dropped.clone();
+            let (w_clone, ws) = (w_bar.clone(), w_started.clone());
             handles.push(verif_simrt::thread::spawn_named(&format!("user-{}", i + 1), move || {
                 let mut k = 0u64;
                 for op in ops.iter() {
@@ -130,10 +150,17 @@ pub fn exec_sched(sc: &Scenario) -> Report {
                         }
                         "finish" => pb.finish(),
                         "abandon" => pb.abandon(),
+                        "w_inc" => {
+                            if let Some(w) = &w_clone {
+                                ws.fetch_add(1, Ordering::SeqCst);
+                                w.inc(1);
+                            }
+                        }
                         "advance" => sched::advance(op.n0()),
                         _ => {}
                     }
                 }
+                drop(w_clone);
                 if owns {
                     dr[i].store(1, Ordering::SeqCst);
                 }
@@ -220,7 +247,7 @@ pub fn exec_sched(sc: &Scenario) -> Report {
                     if t_bar.is_none() && !poker {
                         let nb = ProgressBar::with_draw_target(Some(5), ProgressDrawTarget::hidden());
                         let b0 = bars[0].as_ref().unwrap();
-                        let end = 2 * nworkers as u64 + 5;
+                        let end = 2 * nworkers as u64 + 6;
                         let (pb, rk) = match op.n0() % 5 {
                             1 => (mp.insert(0, nb), 1),
                             2 => (mp.insert_from_back(0, nb), end),
@@ -254,6 +281,7 @@ pub fn exec_sched(sc: &Scenario) -> Report {
         // ---- evaluate the recorded frames
         let frames = std::mem::take(&mut *frames.lock().unwrap());
         let mut last_shown: Vec<usize> = vec![0; nworkers];
+        let mut w_last: u64 = 0;
         let mut appeared: Vec<bool> = vec![false; nworkers];
         let t_rank = t_rank.load(Ordering::SeqCst) as usize;
         let rank = |tag: &str| -> Option<usize> {
@@ -261,6 +289,8 @@ pub fn exec_sched(sc: &Scenario) -> Report {
                 Some(2)
             } else if tag == "T" {
                 Some(t_rank)
+            } else if tag == "W" {
+                Some(2 * nworkers + 4)
             } else {
                 tag.strip_prefix('B').and_then(|n| n.parse::<usize>().ok()).map(|n| 2 * n + 4)
             }
@@ -309,9 +339,28 @@ pub fn exec_sched(sc: &Scenario) -> Report {
                     }
                     prev_rank = Some(rk);
                 }
-                if tag == "T" && !row.starts_with("T:0:m0") {
+                if tag == "T" && !row.starts_with("T:0/5:m0") {
                     r.violate("C02.state_never_had", format!("frame #{fi}: bar T is shown as {row:?}, a state it never had"));
                     break 'frames;
+                }
+                if tag == "W" {
+                    // "W:<pos>/<len>:..." - no length: both numbers are the position at the draw
+                    let nums = row.split(':').nth(1).unwrap_or("");
+                    let (a, b) = nums.split_once('/').unwrap_or(("", ""));
+                    let (a, b) = (a.parse::<u64>().ok(), b.parse::<u64>().ok());
+                    match (a, b) {
+                        (Some(a), Some(b)) if a == b && a >= w_last && a <= f.w_started => w_last = a,
+                        _ => {
+                            r.violate(
+                                "C02.state_never_had",
+                                format!(
+                                    "frame #{fi} (flush {}): the shared bar W (no length) is shown as {row:?}: position and length must be one and the same position, not below {w_last} (shown before), not above {} (increments started)",
+                                    f.flush, f.w_started
+                                ),
+                            );
+                            break 'frames;
+                        }
+                    }
                 }
                 if tag == "S" && f.removed_s {
                     r.violate("C02.removed_bar_shown", format!("frame #{fi}: the removed bar S is painted after remove() returned: {:?}", f.rows));
@@ -324,7 +373,7 @@ pub fn exec_sched(sc: &Scenario) -> Report {
                     }
                     seen[i] = true;
                     // which state of the bar's path is this?
-                    let j = paths[i].iter().position(|st| render_row(&format!("B{i}"), *st) == *row);
+                    let j = paths[i].iter().position(|st| render_row(&format!("B{i}"), *st, has_len(i)) == *row);
                     match j {
                         None => {
                             r.violate(
@@ -335,7 +384,7 @@ pub fn exec_sched(sc: &Scenario) -> Report {
                         }
                         Some(j) => {
                             // several consecutive path entries can render equally ("advance" steps): take the span
-                            let j_hi = paths[i].iter().rposition(|st| render_row(&format!("B{i}"), *st) == *row).unwrap_or(j);
+                            let j_hi = paths[i].iter().rposition(|st| render_row(&format!("B{i}"), *st, has_len(i)) == *row).unwrap_or(j);
                             if j_hi < last_shown[i] {
                                 r.violate(
                                     "C02.older_than_before",
@@ -376,7 +425,7 @@ pub fn exec_sched(sc: &Scenario) -> Report {
                     if bars[i].is_none() {
                         continue; // dropped: cleared, or static text that the last println wiped
                     }
-                    let want = render_row(&format!("B{i}"), *paths[i].last().unwrap());
+                    let want = render_row(&format!("B{i}"), *paths[i].last().unwrap(), has_len(i));
                     if !f.rows.iter().any(|row| *row == want) {
                         r.violate("C02.final_frame", format!("the last frame does not show the final state {want:?} of B{i}: {:?}", f.rows));
                         break;
@@ -415,6 +464,7 @@ pub fn exec_sched(sc: &Scenario) -> Report {
         }
         r.nontrivial = frames.len() >= 3 && nworkers >= 2;
         drop(t_bar);
+        drop(w_bar);
         drop(t_shared.lock().unwrap().take());
         drop(bars);
         drop(s_bar);
@@ -437,6 +487,11 @@ pub fn gen_sched(rng: &mut Rng, tier: Tier) -> Scenario {
     sc.set("atomics_yield", rng.chance(1, 3) as u64);
     gen_sched_cfg(&mut sc, rng, 80 * nworkers as u64);
     sc.set("spurious_pm", 0);
+    let shared_w = rng.chance(1, 3);
+    sc.set("shared_w", shared_w as u64);
+    if shared_w {
+        sc.set("atomics_yield", 1);
+    }
     let mut threads = vec![];
     // structural thread
     let mut s_ops = vec![];
@@ -456,6 +511,9 @@ pub fn gen_sched(rng: &mut Rng, tier: Tier) -> Scenario {
     if rng.chance(1, 3) {
         sc.set("drop_mask", rng.below(1 << nworkers));
     }
+    if rng.chance(1, 3) {
+        sc.set("no_len_mask", rng.below(1 << nworkers));
+    }
     for _ in 0..nworkers {
         let n = rng.range(3, if tier == Tier::Quick { 8 } else { 12 });
         let mut ops = vec![];
@@ -463,6 +521,10 @@ pub fn gen_sched(rng: &mut Rng, tier: Tier) -> Scenario {
         for k in 0..n {
             if finished {
                 break;
+            }
+            if shared_w && rng.chance(1, 3) {
+                ops.push(Op::new("w_inc"));
+                continue;
             }
             ops.push(match rng.below(10) {
                 0..=4 => Op::new("inc"),
